@@ -84,6 +84,9 @@ class Block:
             # round min trials up to multiple of sustain
             if (self.min_trials//count) * count != self.min_trials:
                 self.min_trials = ((self.min_trials//count) + 1) * count
+                # Validation may already have cached a trial count based on
+                # the unrounded minimum.
+                self._trials_per_sample = None
 
     def sep_continuous_factors(self, 
                              design: List[Factor])->List[Factor]:
